@@ -46,7 +46,7 @@ Qed.
 
 Section Restart.
 Variable strf : N -> N -> comp.
-Variable rtm : N -> N.
+Variable rtm : N -> N -> N.
 Variable c : cfg.
 Hypothesis strf_nonempty : forall k t, strf k t <> [].
 
@@ -73,7 +73,7 @@ Lemma nodup_keys_step : forall s o, NoDup (keys (fs s)) -> NoDup (keys (fs (rot_
 Proof.
   intros s o ND. destruct o as [id ts wr cnt | wm rm st]; cbn [rot_step].
   - rewrite write_log_eq. cbn [do_append fs]. apply nodup_keys_append.
-    destruct (pre_write_cases strf rtm c ts cnt s) as [[_ E] | [[_ [_ E]] | [_ [_ E]]]]; rewrite E; auto.
+    destruct (pre_write_cases strf rtm c ts (acct c wr cnt) s) as [[_ E] | [[_ [_ E]] | [_ [_ E]]]]; rewrite E; auto.
     + cbn [set_nrt fs]. apply nodup_keys_rotate; auto.
     + apply nodup_keys_rotate; auto.
   - rewrite construct_state. cbn zeta. cbn [fs]. apply nodup_keys_open.
@@ -272,7 +272,7 @@ Proof.
   assert (ST : construct strf rtm c false rm start (fs s) =
      {| fs := fs s; dq := mk_live c start :: map forget (tl (dq s));
         fsz := fsize (fs_content lp (fs s)); ots := start;
-        nrt := match c_freq c with FDisabled => 0 | _ => init_tp rtm start end;
+        nrt := match c_freq c with FDisabled => 0 | _ => init_tp rtm c start end;
         g_hist := contents (fs s) (rev (mk_live c start :: map forget (tl (dq s)))); g_del := [] |}).
   { rewrite construct_state. cbn zeta. rewrite scheme_index. cbn [andb negb]. rewrite andb_false_r.
     rewrite FS. rewrite (recover_index _ s HI ND). reflexivity. }
@@ -308,7 +308,7 @@ Proof.
   assert (ST : construct strf rtm c true true start (fs s) =
      {| fs := fs_put lp [] (scan_clean c today (fs s)); dq := [mk_live c start];
         fsz := fsize (fs_content lp (fs_put lp [] (scan_clean c today (fs s)))); ots := start;
-        nrt := match c_freq c with FDisabled => 0 | _ => init_tp rtm start end;
+        nrt := match c_freq c with FDisabled => 0 | _ => init_tp rtm c start end;
         g_hist := contents (fs_put lp [] (scan_clean c today (fs s))) (rev [mk_live c start]); g_del := [] |}).
   { rewrite construct_state. cbn zeta. rewrite scheme_index. reflexivity. }
   rewrite ST. cbn [dq fs].
